@@ -23,12 +23,14 @@ TECHNIQUE = "stateless exploration (DFS, prefix replay) of every linearisation o
 RULE = (
     "all rooted ordered scope trees with <= N nodes x scope kind (sync/async) x completion "
     "callback kind (all sync / alternating sync-async) x placement of every non-root node "
-    "{inline, ctx.spawn, plain create_task}; every linearisation of the enter/exit events; plus a "
+    "{inline, ctx.spawn, plain create_task}; every linearisation of the enter/exit events, for <= 3 nodes also with two events in one loop iteration; plus a "
     "nested scope whose suspended disposable enter is cancelled; "
     "non-trivial = some child runs in another task than its parent"
 )
 ASSUMPTIONS = [
-    "a scope nested under X counts for X's completion if it was created before X's callback fired",
+    "a scope nested under X counts for X's completion if it was created before X's callback fired "
+    "(not if it was created after X was left, within the run of the loop in which X completed: the "
+    "callback is invoked through the loop)",
     "virtual clock advances 1/8 at every environment action (so measured times differ)",
 ]
 BOUNDS = {"quick": {"N": 3}, "thorough": {"N": 4, "plus": "N=5 chains/stars with <= 2 task-placed nodes; failing enter"}}
@@ -69,6 +71,17 @@ def programs(tier: str):
                             continue
                         labels = [(kinds[0], "root")] + [(kinds[i], places[i - 1]) for i in range(1, n)]
                         yield {"tree": _label(shape, labels), "cb": cb}
+    # two enter / exit events landing in one loop iteration (a scope is left in the very iteration
+    # in which a task that inherited its context creates a nested one), trees with <= 3 nodes and
+    # at least one task-placed node
+    for n in (2, 3):
+        for shape in tree_shapes(n):
+            for kinds in itertools.product(("a", "s"), repeat=n):
+                for places in itertools.product(("inline", "spawn", "create"), repeat=n - 1):
+                    if all(p == "inline" for p in places):
+                        continue
+                    labels = [(kinds[0], "root")] + [(kinds[i], places[i - 1]) for i in range(1, n)]
+                    yield {"tree": _label(shape, labels), "cb": "sync", "batch": 2}
     # a nested scope whose (suspended) disposable enter is cancelled: the scope is rolled back and
     # must not keep its ancestors from completing
     for place in ("spawn", "create"):
@@ -135,7 +148,7 @@ class SuspDisp(Disp):
 
 
 def execute(program, ch: Chooser) -> Result:  # noqa: C901, PLR0915
-    w = World(ch, cancel_budget=1 if (program.get("cancel_enter") is not None or program.get("cancel_body") is not None) else 0)
+    w = World(ch, cancel_budget=1 if (program.get("cancel_enter") is not None or program.get("cancel_body") is not None) else 0, batch=program.get("batch", 1))
     flips: list = []
 
     def on_quiescent() -> None:
@@ -173,7 +186,7 @@ def execute(program, ch: Chooser) -> Result:  # noqa: C901, PLR0915
 
         def record(metrics):
             nodes[nid]["metrics"] = metrics
-            nodes[nid]["cbs"].append({"seq": seq(), "completed": metrics.is_completed, "time": metrics.time})
+            nodes[nid]["cbs"].append({"seq": seq(), "completed": metrics.is_completed, "time": metrics.time, "segment": len(w.trace)})
             events.append(("completed", nid))
 
         if is_async:
@@ -188,6 +201,7 @@ def execute(program, ch: Chooser) -> Result:  # noqa: C901, PLR0915
         nid = t["id"]
         await w.pause(f"n{nid}.enter")
         nodes[nid]["created"] = seq()
+        nodes[nid]["created_segment"] = len(w.trace)
         events.append(("created", nid))
         disposables = [FailDisp(None)] if program.get("fail_enter") == nid else None
         if program.get("cancel_enter") == nid:
@@ -316,6 +330,15 @@ def execute(program, ch: Chooser) -> Result:  # noqa: C901, PLR0915
                 if len(an["cbs"]) != 1 or n["created"] is None:
                     continue
                 cbseq = an["cbs"][0]["seq"]
+                # a callback is *invoked* through the loop (done-callback of the completion future):
+                # a scope created after the ancestor was left, in the very run of the loop in which
+                # the ancestor completed, did not exist when the completion was decided
+                if (
+                    an["exited"] is not None
+                    and n["created"] > an["exited"]
+                    and n.get("created_segment") == an["cbs"][0].get("segment")
+                ):
+                    continue
                 if n["created"] < cbseq and (n["exited"] is None or n["exited"] > cbseq) and not n.get("enter_failed"):
                     viols.append(
                         viol(
